@@ -243,6 +243,15 @@ def rule_samepath(ctx: Ctx, rule: str = "C12.same-path"):
         if its:
             rep.check(xshow(its[0].term, evs) == "iterate_states_and_transitions(self.states)", rule, its[0].loc(),
                       "providers are resolved against the specs of every state and every transition", al.key, norm_stmt(its[0].node))
+        for i_, it_ in enumerate(its):
+            if p.kind == "raise" or "elem" not in it_.x:
+                continue
+            end_ = its[i_ + 1].idx if i_ + 1 < len(its) else len(evs)
+            seg = [e for e in evs[it_.idx:end_] if e.kind == "call" and isinstance(e.term.func, ast.Attribute) and e.term.func.attr == "resolve"]
+            if not seg and any(e.kind == "branch" for e in evs[it_.idx:end_]):
+                rep.violation(rule, its[0].loc(), "providers are resolved against the specs of *every* state and transition, whatever the path "
+                              "they are attached through: this iteration skips one", al.key,
+                              "; ".join(f"{xshow(b.term, evs)[:80]}={b.x['taken']}" for b in evs[it_.idx:end_] if b.kind == "branch")[:240])
         for e in p.calls():
             if isinstance(e.term.func, ast.Attribute) and e.term.func.attr == "resolve":
                 kw = {k.arg: xshow(k.value, evs) for k in e.term.keywords}
@@ -306,13 +315,9 @@ def rule_samepath(ctx: Ctx, rule: str = "C12.same-path"):
               f"{mod.rel}::SPECS_SAFE", f"SPECS_SAFE = {show(mod.assigns.get('SPECS_SAFE'))}")
 
 
-def rule_dedup(ctx: Ctx, rule: str = "C12.dedup"):
+def rule_provider_attrs(ctx: Ctx, rule: str = "C12.dedup", attrs_rule: str = "C12.allproviders"):
+    """What a provider record is made of: the object, everything dir() of it lists, and its id() as the key part."""
     rep = ctx.rep
-    bk = ctx.fn("Listener.build_key")
-    for p in ctx.paths(bk, inline=None, exc_edges="none"):
-        v = p.value
-        ok = p.kind == "return" and isinstance(v, ast.JoinedStr) and {show(x.value) for x in v.values if isinstance(x, ast.FormattedValue)} == {bk.params[1], "self.resolver_id"}
-        rep.check(ok, rule, bk.loc(), "a builder key names the attribute and the provider", bk.key, f"return {show(v)}")
     fo = ctx.fn("Listener.from_obj")
     n = 0
     for p in ctx.paths(fo, inline=None, exc_edges="none"):
@@ -330,11 +335,21 @@ def rule_dedup(ctx: Ctx, rule: str = "C12.dedup"):
             obj = fo.params[1]
             dirs = [c_ for c_ in ast.walk(attrs) if isinstance(c_, ast.Call) and show(c_.func) == "dir"] if attrs is not None else []
             ok_a = bool(dirs) and all(len(c_.args) == 1 and show(c_.args[0]) == obj for c_ in dirs)
-            rep.check(ok_a, "C12.allproviders", fo.loc(),
+            rep.check(ok_a, attrs_rule, fo.loc(),
                       "a provider offers what `dir()` of the attached object itself lists at attach time (instance attributes, "
                       "`__dir__`/`__getattr__` delegators, handlers added to its class later) - not a per-class or cached view", fo.key,
                       f"all_attrs = {atxt}")
     rep.floor(rule, "constructing paths of Listener.from_obj", n, 1)
+
+
+def rule_dedup(ctx: Ctx, rule: str = "C12.dedup", attrs_rule: str = "C12.allproviders"):
+    rep = ctx.rep
+    bk = ctx.fn("Listener.build_key")
+    for p in ctx.paths(bk, inline=None, exc_edges="none"):
+        v = p.value
+        ok = p.kind == "return" and isinstance(v, ast.JoinedStr) and {show(x.value) for x in v.values if isinstance(x, ast.FormattedValue)} == {bk.params[1], "self.resolver_id"}
+        rep.check(ok, rule, bk.loc(), "a builder key names the attribute and the provider", bk.key, f"return {show(v)}")
+    rule_provider_attrs(ctx, rule, attrs_rule)
     # keys of callables that belong to no provider must identify the callable, not only its name
     sc = ctx.fn("Listeners._search_callable")
     n_k = 0
@@ -497,4 +512,13 @@ def rule_engine(ctx: Ctx, rule: str = "C12.engine", only=None):
         rep.floor(rule, f"attaching paths of {fn.qualname}", n, 1)
 
 
-RULES = [rule_allproviders, rule_filter, rule_samepath, rule_dedup, rule_own, rule_engine]
+def rule_inspected_per_object(ctx: Ctx):
+    """C12.own: a provider is inspected as the object it is: no memo in front of the listener inspection / callback search
+    serves the record of another (equal, or same-named) object - callbacks of one listener never run for another."""
+    from ..wrappers import check_fresh
+    from .c07 import _resolution_pipeline
+
+    check_fresh(ctx, "C12.own", _resolution_pipeline(ctx), "each provider's callbacks are resolved on that very object")
+
+
+RULES = [rule_allproviders, rule_filter, rule_samepath, rule_dedup, rule_own, rule_engine, rule_inspected_per_object]
